@@ -60,7 +60,8 @@ def check(ctx):
     else:
         c = cols['start time']
         ok = c.idx is not None and c.idx[0] == 'FRAME' and (c.at or 0) == 0
-        ctx.ob('R2', fi, "column 'start time'", True if ok else False, 'last frame at the origin (t)' if ok else "'start time' is not the event frame t")
+        ctx.ob('R2', fi, "column 'start time'", True if ok else (False if c.idx is not None else None),
+               'last frame at the origin (t)' if ok else ("'start time' is not the event frame t" if c.idx is not None else "kind of 'start time' not derivable"))
         for need in ('atom index', 'start site', 'destination site', 'start time', 'stop time'):
             if need not in cols:
                 ctx.ob('R2', fi, f"column '{need}'", False, f"the jump table has no column '{need}'")
@@ -103,14 +104,17 @@ def check(ctx):
             continue
         n += 1
         all_ev = [x for x in it.events if x['tag'] == 'append' and x['node'] is e['node']]
-        bad = False
+        bad = unknown = False
         for x in all_ev:
             c = x['value'].cols.get('start site') if x['value'].cols else None
             members = (c.idx[1] if c.idx[0] == 'JOIN' else {c.idx}) if (c is not None and c.idx is not None) else set()
-            if not members or any(m[0] != 'SITE' or (len(m) > 1 and m[1]) for m in members):
+            if not members:
+                unknown = True
+            elif any(m[0] != 'SITE' or (len(m) > 1 and m[1]) for m in members):
                 bad = True
-        ctx.ob('R3', fi, e['node'], not bad, 'origin is a real site' if not bad else
-               "a reported jump can carry the 'no site' marker as origin: departures are not restricted to real sites")
+        ctx.ob('R3', fi, e['node'], False if bad else (None if unknown else True), 'origin is a real site' if not (bad or unknown) else
+               ("a reported jump can carry the 'no site' marker as origin: departures are not restricted to real sites" if bad else
+                "kind of the 'start site' field of the reported jump not derivable"))
     check_scanner_state(ctx, 'R5')
     # ---- R4
     check_residence(ctx, it, fi)
